@@ -57,6 +57,9 @@ def obligation(prog, enums, structs, kind, policy_sets, n_rows=2, only=None):
         one overridden option"""
         n = ex.env["policy_calls"] = ex.env.get("policy_calls", 0) + 1
         resp = c.args[2]
+        pols = deref(ex, c.args[1])
+        is_base = isinstance(pols, Seq) and len(pols.items) == 1 and isinstance(deref(ex, pols.items[0]), Opaque) and deref(ex, pols.items[0]).kind == "Policy"
+        ex.env["policy_order"] = ex.env.get("policy_order", []) + ["base" if is_base else "conf"]
         if ex.choose([None, None]) == 1:
             return Bool(False)
         ex.env["policy_matched"] = True
@@ -216,6 +219,9 @@ def obligation(prog, enums, structs, kind, policy_sets, n_rows=2, only=None):
                 cid = deref(ex, a[1])
                 claims.append(("pool is asked on behalf of the client identifier (option 61, else hardware address)",
                                z3.BoolVal(isinstance(cid, Opaque) and cid.kind == "Blob")))
+        if env.get("policy_order"):
+            claims.append(("top-level defaults (the generated base policy) are applied first and dhcp-policies after them, so that policies override the defaults",
+                           z3.BoolVal(env["policy_order"] == ["base", "conf"])))
         for name, f in claims:
             if only is not None and not name.startswith(only):
                 continue
